@@ -697,3 +697,26 @@ Theorem spec_roundtrip strict f t : lfile_wf f -> Forall rg_strict (l_rgs f) -> 
 Proof. intros W S T. split; [now apply spec_roundtrip_dec|now apply valid_file_roundtrip]. Qed.
 
 End WithCodecs4.
+
+(* ---- the writer's bookkeeping against the validator ---------------------------------------------------
+   C02_fp_write_valid at the level the writer model has: whatever page payloads write_column emits, if the
+   ColumnMetaData it records are those of its running-position/diff bookkeeping (ChunkLayout.wr_bookkeeping),
+   num_values is the row count and null_count the number of NULL levels, then the validator's chunk check
+   accepts the scanned chunk. *)
+Theorem fp_write_chunk_valid : forall start encs (ps : list page) (m : cmd) cells nulls rg,
+  ps <> [] ->
+  forallb is_data (tl ps) = true ->
+  (is_data (hd {| p_kind := PData1; p_hdr := 1; p_comp := 0; p_uncomp := 0; p_nvals := 0; p_enc := 0 |} ps) = false -> tl ps <> []) ->
+  forallb sane ps = true ->
+  forallb (fun p => existsb (Z.eqb (p_enc p)) encs) ps = true ->
+  cmeta_of m = wr_bookkeeping start (sumZ (map p_nvals (filter is_data ps))) encs ps ->
+  cm_nvals m = rg_nrows rg ->
+  (cm_null_count m = None \/ cm_null_count m = Some (Z.of_N nulls)) ->
+  valid_chunk rg (CHere {| co_meta := m; co_pages := ps; co_cells := cells; co_nulls := nulls |}) = ROk tt.
+Proof.
+  intros start encs ps m cells nulls rg H1 H2 H3 H4 H5 HM HN HU.
+  unfold valid_chunk. cbn [co_meta co_pages co_nulls].
+  rewrite HM, (wr_bookkeeping_ok start encs ps H1 H2 H3 H4 H5). cbn [guard rbind].
+  rewrite HN, Z.eqb_refl. cbn [guard rbind].
+  destruct HU as [-> | ->]; [|rewrite Z.eqb_refl]; cbn [guard rbind]; destruct (cm_index_off m); reflexivity.
+Qed.
